@@ -1,4 +1,6 @@
 """C05 — pattern state stays within its documented bounds and never panics."""
+import json
+
 from checks import sase_common as S
 
 META = {
@@ -68,7 +70,62 @@ def check(run):
     if binpath is None:
         return
     S.drive(run, binpath, cases_for(run), "C05", judge, contradicts="C05_* in coq/theories/Sase/Props.v")
+    not_step_probe(run, binpath)
+
+
+def judge_bounds_only(prog, events, ans):
+    """run bound and no panic (patterns with a negation step: outside Sase/Model.v, so no match-level judgement)"""
+    if "panic" in ans:
+        return ["implementation panicked: " + ans["panic"]]
+    out = []
+    keys = set()
+    for k, (ev, e) in enumerate(zip(events, ans["events"])):
+        keys.add(repr(S.key_of(prog, ev)))
+        bound = prog["max_runs"] * (len(keys) if prog["partition"] else 1)
+        if e["active"] > bound:
+            out.append("after event %d: %d partial matches, limit %d per partition x %d partitions (pattern with a NOT step)" % (
+                k, e["active"], prog["max_runs"], len(keys) if prog["partition"] else 1))
+    return out
+
+
+def not_step_probe(run, binpath):
+    """Search support only, no theorem: SEQ patterns with a pattern-level NOT step (SasePattern::Not, pending_negations) are
+    outside the modelled class.  Run bound and no-panic are judged on the implementation alone, every strategy, adversarial
+    streams in which most events start a run and the live runs sit in their negation step."""
+    from vplib import harness
+    rng = run.rng
+    strategies = ["drop", "error", "oldest", "least", ("sample", 1, 2), ("sample", 1, 1), ("sample", 0, 1)]
+    cases = []
+    for i in range(42 if run.tier == "quick" else 700):
+        n = rng.range(2, 3)
+        steps = [{"ty": S.TYPES[rng.below(3)], "alias": S.ALIASES[j], "all": False, "pred": None} for j in range(n)]
+        steps.insert(rng.range(1, n - 1), {"ty": S.TYPES[3], "alias": None, "all": False, "pred": None, "not": True})
+        prog = S.default_prog(steps, [], "k" if i % 3 == 0 else None)
+        prog["max_runs"] = rng.range(1, 8)
+        prog["strategy"] = strategies[i % len(strategies)]
+        keys = [("i", k) for k in range(rng.range(1, 3))] if prog["partition"] else None
+        evs = S.gen_events(rng, rng.range(8, 24), keys=keys, prog=None)
+        t0 = steps[0]["ty"]
+        for e in evs:
+            if rng.chance(2, 3):
+                e["ty"] = t0
+        cases.append((prog, evs))
+    answers = harness.run_jsonl(binpath, [S.prog_request(p, e) for p, e in cases], timeout=1200)
+    nf = 0
+    for (prog, evs), ans in zip(cases, answers):
+        run.count("not-step probe (oracle only)")
+        run.count("not-step probe strategy=%s" % (prog["strategy"] if not isinstance(prog["strategy"], tuple) else "sample"))
+        peak = max([e["active"] for e in ans.get("events", [])] or [0])
+        run.case(json.dumps(S.describe(prog, evs), sort_keys=True) if peak >= prog["max_runs"] else None)
+        fails = judge_bounds_only(prog, evs, ans)
+        if fails:
+            nf += 1
+            if nf <= 2:
+                run.violation("; ".join(fails)[:700], dict(S.describe(prog, evs), implementation=ans, failures=fails, not_step_probe=True,
+                                                            contradicts="property C05 (run bound) on a pattern class outside Sase/Model.v: no theorem covers it"))
+    run.extra["not_step_probe_failures"] = nf
 
 
 def replay(run, path):
-    S.replay_case(run, path, judge)
+    r = json.load(open(path))["replay"]
+    S.replay_case(run, path, judge_bounds_only if r.get("not_step_probe") else judge)
